@@ -5,7 +5,12 @@ from vlib import mk_case, hexs
 TRUSTED = ["extracted model of searchInts / unpack (Pos/LineTable.v)", "the generator's own bookkeeping of the line of every call and failing statement (independent of the implementation)"]
 ASSUMPTIONS = ["scanner, compiler source map and throw's trace construction are decided by generated layouts, not by theorems"]
 
-FAILS = [("x / 0", "ZeroDivisionError"), ("[1][5]", "IndexOutOfBoundsError"), ("int(\"zz\")", None), ("x(1)", "NotCallableError"), ("len()", "WrongNumberOfArgumentsError"),
+PLAIN = [("x / 0", "ZeroDivisionError"), ("[1][5]", "IndexOutOfBoundsError"), ("int(\"zz\")", None), ("x(1)", "NotCallableError"), ("len()", "WrongNumberOfArgumentsError"),
+         # the failing operator has an operand the optimizer folds to a new literal (integers, strings, builtin calls, unary)
+         ("10 * 2 / (x - x)", "ZeroDivisionError"), ("(1 + 2) % (x - x)", "ZeroDivisionError"), ("x / (3 - 3)", "ZeroDivisionError"), ("(\"a\" + \"b\") - x", "TypeError"),
+         ("len(\"ab\") / (x - x)", "ZeroDivisionError"), ("-(2) % (x - x)", "ZeroDivisionError"), ("[1, 2][1 + 4]", "IndexOutOfBoundsError"), ("(1 << 3 | 1) / (x - x)", "ZeroDivisionError"),
+         ("(2.5 * 2.0) - \"s\" + x", "TypeError")]
+FAILS = PLAIN + [
          # a literal constant as operand: the optimizer substitutes it
          ("c9 / (x - x)", "ZeroDivisionError"), ("c9 % (x - x)", "ZeroDivisionError"), ("cs9 - x", "TypeError"), ("(x - x) / c0", "ZeroDivisionError")]
 CONSTS = ["const c9 = 10", "const (cs9 = \"s\"; c0 = 0)"]
@@ -16,7 +21,7 @@ def build(rng, depth, k, in_module):
     # half of the layouts start with constant declarations (and may fail in an operator with a constant operand);
     # the others keep their first statement at byte 0 of the file
     use_consts = rng.random() < .5
-    failexpr, ename = rng.choice(FAILS if use_consts else FAILS[:5])
+    failexpr, ename = rng.choice(FAILS if use_consts else PLAIN)
     consts = list(CONSTS) if use_consts else []
     kind = rng.randrange(3)
     rec = rng.choice([0, 0, 1, 2, 3]) if (depth >= 2 and not in_module) else 0
